@@ -88,10 +88,49 @@ def fn_code_hash(fn: Callable, salt: str = None, environment: bytes = None) -> s
     if hasattr(fn, "__code__"):
         code = getattr(fn, "__code__")  # type: code
         result = hash_if_code_object(code)
+        # Default parameter values are evaluated when the function is defined and are kept
+        # on the function object, not in its code: hash them too, else editing a default
+        # leaves the hash (and so the version of every dependent function) unchanged.
+        defaults = _encode_default_values(fn)
+        if defaults is not None:
+            sha256 = hashlib.sha256()
+            sha256.update(result.encode("utf-8"))
+            sha256.update(defaults)
+            result = sha256.hexdigest()[0:16]
         return result
     else:
         # If we can't get the code for the function, then return the name of the function
         return repr(fn)
+
+
+def _encode_default_values(fn: Callable) -> Optional[bytes]:
+    """
+    Stable encoding of the default parameter values of a function, or `None` if it has none.
+    Values of types Memento cannot encode contribute only their type name (the names used
+    in default expressions are tracked as dependencies like any other name).
+
+    """
+    positional = getattr(fn, "__defaults__", None)
+    keyword_only = getattr(fn, "__kwdefaults__", None)
+    if not positional and not keyword_only:
+        return None
+
+    def encode(value):
+        if callable(value):
+            return {"type": "callable"}
+        try:
+            return MementoCodec.encode_arg(value)
+        except (TypeError, ValueError):
+            return {"type": type(value).__module__ + "." + type(value).__qualname__}
+
+    encoded = {
+        "defaults": [encode(v) for v in positional or ()],
+        "kwdefaults": {k: encode(v) for (k, v) in (keyword_only or {}).items()},
+    }
+    try:
+        return json.dumps(encoded, sort_keys=True).encode("utf-8")
+    except (TypeError, ValueError):
+        return repr(sorted(encoded["kwdefaults"].keys())).encode("utf-8")
 
 
 def resolve_to_symbolic_names(
